@@ -356,4 +356,33 @@ def run (usage : String) (toks : List String) : String :=
     | .error e => "error " ++ e.replace " " "-"
   | _, _ => "bad-input"
 
+/-! ## A mutant, for the mutation witness of C01 -/
+
+/-- MUTANT of `endsWithReturn`: an `if` WITHOUT else counts as "ends with return" as soon as its
+then-branch does (`left` instead of `left && right`). -/
+def endsWithReturn' : Stmts → Bool
+  | .nil => false
+  | .cons s .nil =>
+    match s with
+    | .ret _ => true
+    | .brk => true
+    | .cont => true
+    | .ite _ thn els =>
+      if els.isNil then endsWithReturn' thn else endsWithReturn' thn && endsWithReturn' els
+    | _ => false
+  | .cons _ rest => endsWithReturn' rest
+
+/-- The translator with the mutant plugged in. -/
+def trStmts' : Stmts → Usage → Except String Tgt := trStmtsWith endsWithReturn'
+
+/-- `if 0 { if 1 { return 1 } }; return 2`. -/
+def mutantWitness : Stmts :=
+  .cons (.ite 0 (.cons (.ite 1 (.cons (.ret 1) .nil) .nil) .nil) .nil) (.cons (.ret 2) .nil)
+
+/-- Condition `0` holds, every other condition fails; expression `e` has the value `e`. -/
+def witnessInterp : Interp Unit Nat where
+  atom := fun _ s => s
+  cond := fun c _ => c == 0
+  expr := fun e _ => e
+
 end GooseVerif.Model.Tr
